@@ -38,6 +38,9 @@ func main() {
 		run := func() error { return world.RunDkgScenario(ctx, sc, log) }
 		if *dirk != "" {
 			run = func() error { return world.RunRemoteDkg(ctx, sc, *dirk, log) }
+			if sc.FaultyGRPC {
+				run = func() error { return world.RunRemoteFaultyDkg(ctx, sc, *dirk, log) }
+			}
 		}
 		if err := run(); err != nil {
 			log.Emit(world.Ev{"ev": "DriverError", "sc": sc.ID, "err": err.Error()})
